@@ -1791,3 +1791,127 @@ def check_backend_stateless(ctx):
                       f'scheduling', nontrivial=False)
     ctx.floor('BACKEND-STATELESS', n, 1, 'backend classes with '
               'execute_tasks')
+
+
+# --------------------------------------------------------------- DO-ONCE ---
+
+def check_do_once(ctx):
+    '''A task taken from the queue is executed ONCE: in every backend
+    function, the call `<task>.do(env, config)` occurs at one site, and that
+    site is not inside a loop other than the loop that takes the tasks from
+    the queue.  A second site / a retry loop runs the task twice and reports
+    the outcome of the last attempt only (a task whose do() raised ends
+    DONE, its hard dependents run).'''
+    program = ctx.program
+    n_sites = 0
+    for func in program.all_functions():
+        if not func.module.name.startswith(BACKENDS):
+            continue
+        dos = [call for call in calls_in(func.node)
+               if call_name(call) == 'do' and len(call.args) == 2 and
+               isinstance(receiver(call), ast.Name)]
+        if not dos:
+            continue
+        n_sites += len(dos)
+        parents = enclosing_chain(func.node)
+        by_task = {}
+        for call in dos:
+            by_task.setdefault(receiver(call).id, []).append(call)
+        for tvar, calls in by_task.items():
+            if len(calls) > 1:
+                ctx.violated(
+                    'DO-ONCE', func,
+                    f'{func.name}: {tvar}.do(...) at {len(calls)} sites '
+                    f'(lines {", ".join(str(c.lineno) for c in calls)})',
+                    at=func.where(calls[1]),
+                    detail='the task can be executed twice; only the last '
+                           'outcome is reported')
+                continue
+            call = calls[0]
+            # loops around the call that do not (re)bind the task variable
+            bad_loop = None
+            cur = parents.get(id(call))
+            while cur is not None and cur is not func.node:
+                if isinstance(cur, (ast.For, ast.While)):
+                    rebinds = any(
+                        isinstance(n, ast.Name) and n.id == tvar and
+                        isinstance(n.ctx, ast.Store)
+                        for n in ast.walk(cur))
+                    if not rebinds:
+                        bad_loop = cur
+                        break
+                cur = parents.get(id(cur))
+            ctx.decide('DO-ONCE', func,
+                       f'{func.name}: {txt(call)[:40]} at one site, '
+                       + ('inside a loop that does not take a new task'
+                          if bad_loop is not None else
+                          'once per task taken'),
+                       bad_loop is None, at=func.where(call),
+                       detail='retry loop: the task is executed again'
+                       if bad_loop is not None else None)
+    ctx.floor('DO-ONCE', n_sites, 1, '<task>.do(env, config) call sites in '
+              'the backends')
+
+
+# ----------------------------------------------------------- QUEUE-API ---
+
+QUEUE_PUBLIC = {'put', 'get', 'task_done', 'join', 'qsize', 'empty', 'full',
+                'put_nowait', 'get_nowait', 'maxsize'}
+
+
+def check_queue_api(ctx):
+    '''queue.join() returns when the count of put() equals the count of
+    task_done(): the backends use the work queue only through its public
+    interface.  Reaching into the object (`.queue` deque, `.mutex`,
+    `.unfinished_tasks`, `.all_tasks_done` ...) changes the content without
+    the accounting: tasks dropped from the deque are never task_done(), the
+    next join() of that backend never returns.'''
+    program = ctx.program
+    qattrs = set()
+    for func in program.all_functions():
+        if not func.module.name.startswith(BACKENDS):
+            continue
+        for node in ast.walk(func.node):
+            if isinstance(node, ast.Assign) and isinstance(
+                    node.value, ast.Call) and (dotted(
+                        node.value.func) or '').split('.')[-1] in (
+                            'Queue', 'LifoQueue', 'PriorityQueue',
+                            'SimpleQueue'):
+                for tgt in node.targets:
+                    if isinstance(tgt, ast.Attribute):
+                        qattrs.add(tgt.attr)
+                    elif isinstance(tgt, ast.Name):
+                        qattrs.add(tgt.id)
+    ctx.floor('QUEUE-API', len(qattrs), 1, 'work queue created in a backend')
+    n_use = n_bad = 0
+    for func in program.all_functions():
+        if not func.module.name.startswith(BACKENDS):
+            continue
+        for node in ast.walk(func.node):
+            if not (isinstance(node, ast.Attribute) and isinstance(
+                    node.ctx, ast.Load)):
+                continue
+            base = node.value
+            bname = base.attr if isinstance(base, ast.Attribute) else \
+                base.id if isinstance(base, ast.Name) else None
+            if bname not in qattrs:
+                continue
+            # <x>.queue.<attr> where <x>.queue is the work queue
+            if isinstance(base, ast.Name) and func.module.imports.get(
+                    bname, (None,))[0] == 'module':
+                continue
+            n_use += 1
+            if node.attr in QUEUE_PUBLIC:
+                continue
+            n_bad += 1
+            ctx.violated('QUEUE-API', func,
+                         f'{func.name}: {txt(node)} reaches into the work '
+                         f'queue', at=func.where(node),
+                         detail='the content changes without the put / '
+                                'task_done accounting that join() waits on')
+    ctx.floor('QUEUE-API-uses', n_use, 4, 'uses of the work queue')
+    if not n_bad:
+        ctx.holds('QUEUE-API', 'backends',
+                  f'{n_use} uses of the work queue '
+                  f'({", ".join(sorted(qattrs))}) go through its public '
+                  f'interface', nontrivial=False)
